@@ -91,7 +91,10 @@ def run_multinom(spec, rec, dadi):
             if ok1 and ok2:
                 a, b = np.atleast_1d(np.asarray(a, float)).ravel(), np.atleast_1d(np.asarray(b, float)).ravel()
                 if a.shape == b.shape and np.all(np.isfinite(b)) and np.all(b != 0):
-                    rec.close("theta-augmentation", float(np.max(np.abs(a / b - 1))), 1e-6, site="Godambe." + fname, tags=tags,
+                    # the two routes differ in the last bits of theta (order of summation); second differences of the log-likelihood at
+                    # step eps*p amplify that by ~|ll|/eps^2 and the matrix inversions by their conditioning (seen: 1.0e-6 on the
+                    # unchanged tree), while a wrong theta or a wrongly placed augmentation moves the statistics by O(1)
+                    rec.close("theta-augmentation", float(np.max(np.abs(a / b - 1))), 1e-3, site="Godambe." + fname, tags=tags,
                               observed=a, expected=b)
                 else:
                     rec.check("theta-augmentation", a.shape == b.shape and not np.all(np.isfinite(b)), site="Godambe." + fname, tags=tags, observed=a, expected=b)
